@@ -75,7 +75,8 @@ def run(ctx):
       'schedule, virtual time; the same for sharded pipelines (1-2 workers, 1-3 '
       'shards, retry thresholds 0/1/default); fault-free runs of as_completed '
       'with every subset of <= 2 (thorough 3) late replies (2-3 workers, 2-4 '
-      'tasks). A case = one complete run; distinct = distinct '
+      'tasks); worker shuffles as environment choices (every rotation) combined '
+      'with faults, <= 2 (3) deviations. A case = one complete run; distinct = distinct '
       '(configuration, fault placement).')
   ctx.assumptions += [
       'fake transport: a call runs its handler at most once; deadline errors '
@@ -96,6 +97,16 @@ def run(ctx):
   explorer.explore_all(ctx, MODULE, late, pre_bound=-1,
                        dev_bound=2 if ctx.quick else 3)
   ctx.notes['late_reply_configurations'] = len(late)
+  # random.shuffle of the candidate workers is an environment choice as well
+  # (every rotation), combined with faults
+  shuffled = [('as_completed', dict(W=3, T=3, menu=MENU, shuffle=True)),
+              ('as_completed', dict(W=3, T=4, menu=MENU, shuffle=True,
+                                    push=False)),
+              ('as_completed', dict(W=3, T=3, bad=2, menu=MENU, shuffle=True)),
+              ('as_completed', dict(W=2, T=3, bad=1, ignore=True, menu=MENU,
+                                    shuffle=True))]
+  explorer.explore_all(ctx, MODULE, shuffled, pre_bound=-1,
+                       dev_bound=2 if ctx.quick else 3, split=8)
   shc = sharded_configs(ctx.tier)
   explorer.explore_all(ctx, MODULE, shc, pre_bound=-1, dev_bound=dev,
                        split=0 if ctx.quick else 8)
